@@ -28,8 +28,15 @@ class _Injector:
         self.count += 1
         self.kinds.append(kind)
         if self.fault_at is not None and self.count == self.fault_at:
-            e = {"InjectedFault": InjectedFault, "KeyError": KeyError, "ZeroDivisionError": ZeroDivisionError,
-                 "AttributeError": AttributeError}[self.exc](f"injected at {self.count} ({kind})")
+            if self.exc == "SchemaError":
+                # a user callback that validates something itself (nested schema.validate) fails with pandera's own
+                # error type, built by user code: no reason code
+                import pandera.errors as pe
+
+                e = pe.SchemaError(None, None, f"injected at {self.count} ({kind})")
+            else:
+                e = {"InjectedFault": InjectedFault, "KeyError": KeyError, "ZeroDivisionError": ZeroDivisionError,
+                     "AttributeError": AttributeError}[self.exc](f"injected at {self.count} ({kind})")
             self.raised = (e, kind)
             raise e
 
@@ -210,7 +217,7 @@ def strategy(draw):
     if draw(st.booleans()):
         ft["index"] = draw(st.lists(ints, min_size=n, max_size=n))
     return {"schema": fs, "table": ft, "excs": draw(st.sampled_from([["InjectedFault"], ["InjectedFault", "KeyError"],
-                                                                      ["ZeroDivisionError"], ["AttributeError"]]))}
+                                                                      ["ZeroDivisionError"], ["AttributeError"], ["SchemaError"], ["SchemaError"]]))}
 
 
 def _state(schema, data):
@@ -262,9 +269,12 @@ def evaluate(case):
                     if cb == "check" and not _warning_only(case, kind):
                         ev.add(f"raising-check-callback-accepted:{mode}", {"k": k, "callback": kind, "exc": exc})
                 elif o["kind"] in ("SchemaError", "SchemaErrors"):
-                    if (o["kind"] == "SchemaErrors") != lazy:
+                    if o.get("exc") is err and cb != "check":
+                        pass  # the injected (pandera-typed) exception itself propagates from a non-check callback: accepted
+                    elif (o["kind"] == "SchemaErrors") != lazy:
                         ev.add(f"wrong-error-class:{mode}:{o['kind']}", {"k": k, "callback": kind})
-                    if cb == "check" and "CHECK_ERROR" not in o.get("reasons", []) and (lazy or o_clean["kind"] == "ok"):
+                    failed_check = {"CHECK_ERROR"} | ({"DATAFRAME_CHECK"} if exc == "SchemaError" else set())
+                    if cb == "check" and not (failed_check & set(o.get("reasons", []))) and (lazy or o_clean["kind"] == "ok"):
                         # (eager: another, legitimately failing constraint may be the one that is raised first)
                         ev.add(f"raising-check-not-reported-as-CHECK_ERROR:{mode}", {"k": k, "callback": kind, "reasons": o.get("reasons")})
                 elif o["kind"] == "internal" and o.get("exc") is not err and _raised_in_user_callback(o.get("exc")):
@@ -341,3 +351,11 @@ FAMILIES = [
     Family("faults", evaluate, strategy=strategy, n_quick=40, n_thorough=400, shards_quick=4, shards_thorough=16,
            required_labels=["fault-in:check", "fault-in:parser", "fault-in:groupby", "fault-in:dtype"]),
 ]
+
+
+@known.finding("C06/user-raised-SchemaError-without-reason-code-in-parser-or-dtype")
+def _kf_user_schema_error(family, case, disc):
+    d = disc.detail if isinstance(disc.detail, dict) else {}
+    parts = disc.kind.split(":")
+    return (family == "faults" and parts[0] == "callback-fault-turns-into-other-exception" and d.get("exc") == "SchemaError"
+            and parts[2] in ("parser", "dtype") and parts[3] == "KeyError@validation_depth.py" and parts[-1] == "validation_type")
